@@ -43,6 +43,8 @@ type c20World struct {
 	future    []*sig.RawCall
 	resets    int
 	maxResets int
+	// last honest message submitted per call (for the same-signature-new-data kind)
+	lastHonest map[*sig.RawCall]*signaling.SessionMsg
 }
 
 type c20Sub struct {
@@ -165,6 +167,19 @@ func (w *c20World) submit(s *dsim.Sim, c *sig.RawCall, kind string) {
 		panic(err)
 	}
 	switch kind {
+	case "same-signature-new-data":
+		// the previous honest message of this stream with its signature and sender kept and
+		// the payload replaced (a relay that remembers "already verified" by an id that does
+		// not cover the payload lets it through)
+		prev := w.lastHonest[c]
+		if prev == nil {
+			return
+		}
+		cl := prev.CloneVT()
+		cl.Seqno = uint64(w.n)
+		cl.SignedMsg.Data = []byte(payload)
+		sm = cl
+		authentic = false
 	case "tampered-body":
 		sm.SignedMsg.Data = append([]byte("X"), sm.SignedMsg.Data...)
 		payload = string(sm.SignedMsg.Data)
@@ -203,8 +218,17 @@ func (w *c20World) submit(s *dsim.Sim, c *sig.RawCall, kind string) {
 		sm = &signaling.SessionMsg{Seqno: uint64(w.n), SignedMsg: &peer.SignedMsg{FromPeerId: owner.IDs, Data: []byte(payload), Signature: sigObj}}
 		authentic = false
 	}
+	if kind == "honest" {
+		if w.lastHonest == nil {
+			w.lastHonest = map[*sig.RawCall]*signaling.SessionMsg{}
+		}
+		w.lastHonest[c] = sm
+	}
 	if kind != "honest" {
 		k := kind
+		if k == "same-signature-new-data" {
+			k = "tampered"
+		}
 		if len(k) > 8 && k[:8] == "tampered" {
 			k = "tampered"
 		}
@@ -218,9 +242,13 @@ func (w *c20World) submit(s *dsim.Sim, c *sig.RawCall, kind string) {
 	w.rw.Msgs[payload] = &sig.RawMsg{From: owner.Name, To: c.To.Name, Payload: payload, Epoch: epoch, Msg: sm}
 	_ = c.Cli.Send(&signaling.SessionRequest{SessionSeqno: epoch, Body: &signaling.SessionRequest_SendMsg{SendMsg: sm}})
 	s.Logf("submit %s kind=%s epoch=%d %q", c.St.Name, kind, epoch, payload)
+	if kind == "honest" && s.Tape.Bool(1, 8, "follow-with-clone") {
+		// the very next request on this stream re-uses the signature just verified
+		w.submit(s, c, "same-signature-new-data")
+	}
 }
 
-var c20Kinds = []string{"honest", "honest", "honest", "honest", "honest", "honest", "honest", "honest", "honest", "honest", "honest", "honest", "honest", "honest", "foreign-signed", "claims-owner", "embedded-pubkey", "tampered-body", "tampered-sig", "tampered-sender", "wrong-context", "unsigned", "stale-epoch", "future-epoch"}
+var c20Kinds = []string{"honest", "honest", "honest", "honest", "honest", "honest", "honest", "honest", "honest", "honest", "honest", "honest", "honest", "honest", "foreign-signed", "claims-owner", "embedded-pubkey", "tampered-body", "tampered-sig", "tampered-sender", "wrong-context", "unsigned", "stale-epoch", "future-epoch", "same-signature-new-data"}
 
 func (w *c20World) Actions(s *dsim.Sim, add func(dsim.Action)) {
 	w.rw.Net.DeliveryActions(add)
